@@ -25,6 +25,7 @@ const c13prelude = `U := {|n| {
 fv := {|x| "var#{x.n}".p; U(x.n + 10)}
 fpair := {|a, b| "pair".p; a + b}
 wrapped := 1.try./(0).err
+fident := {|x| x}
 `
 
 type c13step struct {
@@ -152,6 +153,17 @@ func runC13(w *fw.W) {
 		{fam: "special", recv: `"a"`, steps: []c13step{{name: "operator+", src: `.+("b")`}, {name: "builtin", src: ".len"}}},
 		{fam: "special", recv: "{f: {|x| 5}}", steps: []c13step{{name: "func-prop-receiver-first", src: ".f"}}},
 		{fam: "special", recv: "{_missing: m{|name| name}}", steps: []c13step{{name: "value-missing-noargs", src: ".anything"}}},
+		// the value under try is itself an Either (a helper that reports its outcome as data): trying it is a success holding it
+		{fam: "special", recv: "6.try./(3)", steps: []c13step{{name: "either-receiver-identity", src: ".{|x| x}"}}},
+		{fam: "special", recv: "6.try./(0)", steps: []c13step{{name: "either-receiver-identity", src: ".{|x| x}"}}},
+		{fam: "special", recv: "6.try./(0)", steps: []c13step{{name: "either-receiver-into-array", src: ".{|x| [x, 1]}"}}},
+		{fam: "special", recv: "6.try./(0)", steps: []c13step{{name: "either-receiver-operator", src: ".+(1)"}}},
+		{fam: "special", recv: "6.try./(3)", steps: []c13step{{name: "either-receiver-operator", src: ".+(1)"}, {name: "either-receiver-identity", src: ".{|x| x}"}}},
+		{fam: "special", recv: "6.try./(0)", steps: []c13step{{name: "either-receiver-var", src: ".^fident"}}},
+		{fam: "special", recv: "nil.try", steps: []c13step{{name: "either-receiver-identity", src: ".{|x| x}"}}},
+		{fam: "special", recv: "6.try./(0)", steps: nil},
+		{fam: "special", recv: "6.try./(3)", steps: nil},
+		{fam: "special", recv: "{x: 6.try./(0)}", steps: []c13step{{name: "prop-holding-either", src: ".x"}}},
 	}
 	chains = append(chains, special...)
 	// replacing step j by a failing step makes chains that differ only in the replaced step identical: keep one
